@@ -36,6 +36,8 @@ def to_cols(c):
     if t == 'rev':
         return slice(None, None, -1)
     if t in ('list', 'perm'):
+        if c.get('as', 'list') != 'list':
+            return np.array(c['v'], dtype=c['as'])      # the caller's own index array
         return list(c['v'])
     if t == 'int':
         return int(c['v'])
@@ -181,7 +183,7 @@ def col_selector(draw, nch, allow_int=True):
     if draw(st.booleans()):
         # NumPy semantics: negative entries count from the last channel
         v = [j - nch if draw(st.booleans()) else j for j in v]
-    return {'t': 'list', 'v': v}
+    return {'t': 'list', 'v': v, 'as': draw(st.sampled_from(['list', 'list', 'int64', 'int32']))}
 
 
 # ---------------------------------------------------------------------------------------------
@@ -204,7 +206,7 @@ def layout(draw, max_n=64, max_parts=5, backends=('flat', 'flat', 'npy', 'array'
         lay['parts'] = draw(composition(n, max_parts))
         lay['offset'] = draw(st.sampled_from([0, 0, 1, 2, 7, 16, 31]))
         lay['ext'] = draw(st.sampled_from(['.dat', '.bin', '.raw']))
-        lay['names'] = draw(st.sampled_from(['asc', 'desc', 'num']))
+        lay['names'] = draw(st.sampled_from(['asc', 'desc', 'num', 'samebase']))
     else:
         lay['parts'] = [n]
         lay['offset'] = 0
@@ -261,7 +263,7 @@ class OpenReader(object):
 
         def arg_of(p):
             # relative spelling: the process sits in the recording's directory while opening
-            return type(p)(p.name) if rel else p
+            return type(p)(os.path.relpath(str(p), str(self.dir))) if rel else p
         try:
             b = lay['backend']
             if rel:
@@ -304,9 +306,13 @@ class OpenReader(object):
                     paths = rec.write_flat(d, self.A, lay['parts'], lay['offset'],
                                            ext=lay.get('ext', '.dat'), order=lay.get('names', 'asc'))
                     if final:
+                        moved = []
                         for p in paths:
-                            os.replace(p, final / p.name)
-                        paths = [final / p.name for p in paths]
+                            q = final / p.relative_to(d)
+                            q.parent.mkdir(parents=True, exist_ok=True)
+                            os.replace(p, q)
+                            moved.append(q)
+                        paths = moved
                     paths_given = [arg_of(p) for p in paths]
                     arg = paths_given if (len(paths) > 1 or lay.get('salt', 0) % 2) \
                         else paths_given[0]
